@@ -67,16 +67,21 @@ def sortFresh : List Pair → List Pair
 
 /-- the three loops of `merge()`; the result is `tempPairs`.
 `old`/`added` are what is left of `localIndices_`/`newIndices_` behind the two iterators
-(`eraseToHere` drops everything up to and including the iterator position). -/
+(`eraseToHere` drops everything up to and including the iterator position).  Written with structural recursion
+(outer: `old`, inner: `added`) so that the kernel can evaluate it; the loop-shaped equations
+  mergeLoop [] added            = added                                   -- third loop: copy the rest of `added`
+  mergeLoop (o :: os) []        = if o.valid then o :: mergeLoop os [] else mergeLoop os []          -- second loop
+  mergeLoop (o :: os) (a :: as) = if !o.valid then mergeLoop os (a :: as)           -- DELETED: old.eraseToHere()
+                                  else if before o a then o :: mergeLoop os (a :: as) -- push_back(*old)
+                                  else a :: mergeLoop (o :: os) as                    -- push_back(*added)
+are the theorems `mergeLoop_nil`, `mergeLoop_cons_nil`, `mergeLoop_cons_cons` (Proofs/C03Sort.lean). -/
+def mergeInner (o : Pair) (rest : List Pair → List Pair) : List Pair → List Pair
+  | [] => o :: rest []
+  | a :: as => if before o a then o :: rest (a :: as) else a :: mergeInner o rest as
+
 def mergeLoop : List Pair → List Pair → List Pair
-  | [], added => added                                  -- third loop: copy the rest of `added`
-  | o :: os, [] =>                                      -- second loop: copy the rest of `old`, skipping DELETED
-    if o.l.valid then o :: mergeLoop os [] else mergeLoop os []
-  | o :: os, a :: as =>
-    if !o.l.valid then mergeLoop os (a :: as)           -- old->local().state()==DELETED : old.eraseToHere()
-    else if before o a then o :: mergeLoop os (a :: as) -- tempPairs.push_back(*old); old.eraseToHere()
-    else a :: mergeLoop (o :: os) as                    -- tempPairs.push_back(*added); added.eraseToHere()
-termination_by old added => old.length + added.length
+  | [], added => added
+  | o :: os, added => if !o.l.valid then mergeLoop os added else mergeInner o (mergeLoop os) added
 
 /-- `merge()` -/
 def merge (s : ISet) : ISet :=
